@@ -8,6 +8,8 @@ import (
 	"sort"
 	"strconv"
 	"strings"
+	"sync"
+	"time"
 
 	"google.golang.org/protobuf/proto"
 
@@ -33,6 +35,8 @@ type tgComp struct {
 	calls    []string
 	touched  map[string]int
 	monErr   string
+	hmu      sync.Mutex // handlers of two overlapping loads may run on two goroutines
+	barrier  func()
 
 	// registries: deterministic wire form -> token (payload digests are looked up, so a
 	// digest vouches for the whole message content)
@@ -332,10 +336,21 @@ func (c *tgComp) fail(why string) {
 	}
 }
 
+// enter is the prologue of every recording handler: the first handler call of a `load2` pair
+// holds its Load until the overlapping second Load has returned (or cannot proceed).
+func (c *tgComp) enter() {
+	if b := c.barrier; b != nil {
+		b()
+	}
+	c.hmu.Lock()
+}
+
 func (c *tgComp) handlers(h string) target.Handler {
 	var hd target.Handler
 	if h[0] != '-' {
 		hd.Add = func(u target.Update) {
+			c.enter()
+			defer c.hmu.Unlock()
 			c.calls = append(c.calls, "A|"+encStr(u.Name)+"|"+c.digTgt(u.Target)+"|"+c.digReq(u.Request))
 			c.touched[u.Name]++
 			if _, ok := c.replayed[u.Name]; ok && c.allH {
@@ -346,6 +361,8 @@ func (c *tgComp) handlers(h string) target.Handler {
 	}
 	if h[1] != '-' {
 		hd.Update = func(u target.Update) {
+			c.enter()
+			defer c.hmu.Unlock()
 			c.calls = append(c.calls, "U|"+encStr(u.Name)+"|"+c.digTgt(u.Target)+"|"+c.digReq(u.Request))
 			c.touched[u.Name]++
 			if _, ok := c.replayed[u.Name]; !ok && c.allH {
@@ -356,6 +373,8 @@ func (c *tgComp) handlers(h string) target.Handler {
 	}
 	if h[2] != '-' {
 		hd.Delete = func(name string) {
+			c.enter()
+			defer c.hmu.Unlock()
 			c.calls = append(c.calls, "D|"+encStr(name))
 			c.touched[name]++
 			if _, ok := c.replayed[name]; !ok && c.allH {
@@ -477,6 +496,67 @@ func (c *tgComp) Run(args []string) string {
 		}
 		calls := append([]string(nil), c.calls...)
 		return class + " " + sortedBracket(calls) + " " + mon
+	case "load2":
+		// two overlapping Load calls: the first handler call of the first Load waits until the
+		// second Load has returned, or 30ms (it cannot return while the first holds the lock)
+		if len(args) < 3 {
+			return "bad-op"
+		}
+		if c.c == nil {
+			return "noconfig"
+		}
+		ca, ok1 := c.decCfg(args[1], variantRand(args, 3))
+		cb, ok2 := c.decCfg(args[2], variantRand(args, 4))
+		if !ok1 || !ok2 {
+			return "bad-token"
+		}
+		c.calls, c.touched = nil, map[string]int{}
+		entered := make(chan struct{})
+		secondDone := make(chan struct{})
+		var once sync.Once
+		c.barrier = func() {
+			first := false
+			once.Do(func() { first = true; close(entered) })
+			if first {
+				select {
+				case <-secondDone:
+				case <-time.After(30 * time.Millisecond):
+				}
+			}
+		}
+		classOf := func(cfg *pb.Configuration, err error) string {
+			switch {
+			case err == nil:
+				return "ok"
+			case cfg == nil:
+				return "nilconfig"
+			case target.Validate(cfg) != nil:
+				return "invalid"
+			}
+			return "revision"
+		}
+		var errA, errB error
+		aDone := make(chan struct{})
+		go func() { errA = c.c.Load(ca); close(aDone) }()
+		select {
+		case <-entered:
+		case <-aDone:
+		}
+		go func() { errB = c.c.Load(cb); close(secondDone) }()
+		<-aDone
+		<-secondDone
+		c.barrier = nil
+		mon := "mon=na"
+		if c.allH {
+			mon = "mon=ok"
+			if !sameMap(c.replayed, c.effective(c.c.Current())) {
+				c.fail("replay-differs-from-current")
+			}
+		}
+		if c.monErr != "" {
+			mon = "mon=FAIL:" + c.monErr
+		}
+		return classOf(ca, errA) + " " + classOf(cb, errB) + " " + sortedBracket(append([]string(nil), c.calls...)) + " " + mon
 	case "cur":
 		if c.c == nil {
 			return "noconfig"
@@ -851,7 +931,37 @@ func (c *tgComp) Gen(r *rand.Rand, tier string) []string {
 		}
 	}
 	n := 3 + r.Intn(10)
+	pair := -1
+	if r.Intn(6) == 0 {
+		pair = r.Intn(n)
+	}
+	next := func() *gCfg {
+		var g *gCfg
+		if cur == nil {
+			g = tgRandCfg(r, tgNextRev(r, 0, false))
+		} else {
+			g = cur.clone()
+			for k := 1 + r.Intn(3); k > 0; k-- {
+				tgMutate(r, g)
+			}
+			g.rev = tgNextRev(r, cur.rev, true)
+		}
+		return g
+	}
 	for i := 0; i < n; i++ {
+		if i == pair {
+			// two overlapping loads (both usually acceptable, the second touching other targets)
+			a := next()
+			if a.valid() && (cur == nil || a.rev > cur.rev) {
+				cur = a
+			}
+			b := next()
+			seq = append(seq, "load2 "+a.token()+" "+b.token()+" "+v()+" "+v())
+			if b.valid() && (cur == nil || b.rev > cur.rev) {
+				cur = b
+			}
+			continue
+		}
 		if r.Intn(40) == 0 {
 			seq = append(seq, "load nil")
 			continue
